@@ -162,47 +162,7 @@ def rich_pool(rng):
     return atoms
 
 
-def leaf_family():
-    """Every probability leaf over A, B, C: 1-2 children, 0-2 parents, optional +/- marks, 0-2 intervention subscripts with either
-    mark carried by all variables (prints as P[..](..)) or by the first child only (prints with @), with and without a population."""
-    import itertools as itt
-    dsl = concrete.y0mod("y0.dsl")
-    names = ["A", "B", "C"]
-    out = []
-    ivsets = [()]
-    for k in (1, 2):
-        for sub in itt.combinations(names, k):
-            for stars in itt.product([False, True], repeat=k):
-                t = tuple(dsl.Intervention(name=n, star=s) for n, s in zip(sub, stars))
-                ivsets.append(t)
-                if k == 2:
-                    ivsets.append(t[::-1])      # the other insertion order of the same frozenset
-    for nc in (1, 2):
-        for ch in itt.combinations(names, nc):
-            rest = [n for n in names if n not in ch]
-            for npa in range(0, len(rest) + 1):
-                for pa in itt.combinations(rest, npa):
-                    for mark in (None, 0, 1, 2):        # which variable (if any) carries a +/- mark, alternating the sign
-                        allv = list(ch) + list(pa)
-                        if mark is not None and mark >= len(allv):
-                            continue
-                        for ivs in ivsets:
-                            for mode in (("all", "first") if ivs else ("none",)):
-                                def mk(n, pos, with_ivs):
-                                    # built with the public operators only: +v / -v for value marks, v @ subscripts for interventions
-                                    v = dsl.Variable(n)
-                                    if mark == pos:
-                                        v = +v if (pos + len(ivs)) % 2 else -v
-                                    return v @ ivs if with_ivs else v
-                                try:
-                                    cvs = tuple(mk(n, i, mode == "all" or (mode == "first" and i == 0)) for i, n in enumerate(ch))
-                                    pvs = tuple(mk(n, len(ch) + i, mode == "all") for i, n in enumerate(pa))
-                                    d = dsl.Distribution(children=cvs, parents=pvs)
-                                except (ValueError, TypeError):
-                                    continue
-                                out.append(dsl.Probability(d))
-                                out.append(dsl.PopulationProbability(population=dsl.Population("Pi1"), distribution=d))
-    return out
+leaf_family = xo.leaf_family
 
 
 LEAF_SNIPPET = r"""
